@@ -105,7 +105,10 @@ pub fn judge(argv: &[String], stdin: &[u8], stdout: &StdoutKind, acc: &mut Acc) 
 pub fn judge_delivery(argv: &[String], stdin: &[u8], cuts: &[usize], stdout: &StdoutKind, acc: &mut Acc) {
     acc.evals += 1;
     let class = climodel::classify(argv);
-    let stdin_kind = if cuts.is_empty() {
+    let stdin_kind = if stdin == climodel::STDIN_IS_A_DIRECTORY {
+        acc.count("stdin_is_a_directory");
+        StdinKind::Directory
+    } else if cuts.is_empty() {
         StdinKind::Bytes(stdin.to_vec())
     } else {
         let mut bursts = vec![];
@@ -272,6 +275,23 @@ pub fn run(ctx: &Ctx) -> i32 {
         judge_as(ARG0S[ai], &argv, STDINS[k % 3], &if k % 4 == 3 { StdoutKind::File } else { StdoutKind::Pipe }, acc);
     });
     acc.merge(named_acc);
+    // standard input is an open directory (`xt ... < dir`): an input like any other that fails when read
+    let n_dir = (1 + v) + ctx.size(200, 3000);
+    let dir_acc = crate::par::run(n_dir, 8, |k, acc| {
+        let mut rng = Rng::derive(seed, 0xc13d, k as u64);
+        let argv: Vec<String> = if k == 0 {
+            vec![]
+        } else if k <= v {
+            vec![VOCAB[k - 1].to_string()]
+        } else {
+            let mut a: Vec<String> = (0..rng.range(1, 3)).map(|_| rng.pick(VOCAB).to_string()).collect();
+            a.insert(rng.below(a.len() + 1), "-".into());
+            a
+        };
+        acc.distinct(&("stdin-dir", &argv));
+        judge(&argv, climodel::STDIN_IS_A_DIRECTORY, &if k % 3 == 2 { StdoutKind::File } else { StdoutKind::Pipe }, acc);
+    });
+    acc.merge(dir_acc);
     // standard input that trickles in: multi-document streams (complete, and with a malformed or
     // unrepresentable later part) cut into 2-4 bursts at and inside document boundaries
     let streams: Vec<(&str, Vec<u8>)> = vec![
@@ -315,11 +335,11 @@ pub fn run(ctx: &Ctx) -> i32 {
         judge_delivery(&argv, bytes, &cuts, &StdoutKind::Pipe, acc);
     });
     acc.merge(b_acc);
-    let rule = format!("EVERY argument vector of length 0..={} over a {}-token vocabulary (-f/-t with every name and alias in attached, detached and '=' forms, repeated, missing value, invalid name; unknown short/long options; -h --help -V --version and clustered/valued forms; '--'; '-'; translatable / malformed / undetectable / unrepresentable / missing / directory / empty paths, a JSON file nested 200 000 deep, YAML behind a UTF-8 byte order mark, a file whose extension is a one-letter format alias, a procfs file (regular, reported size 0, not mappable, with content); the extension spelling 'yml' as an option value) plus {} random vectors of length 3-6 and every ordered pair of translatable inputs x every target; every vector of length 0..=1 and a sample of longer ones again with the process started under 6 other program names (argv[0] not valid UTF-8, empty, a path, with a space); each run with a pipe and (rotating) a file, a pseudo-terminal or /dev/full as stdout, stdin content rotating over translatable / malformed / empty; plus 10 multi-document streams (complete, or with a malformed / unrepresentable later document; up to 30 KiB) x named or detected source x 4 targets, trickling in on stdin in 2-4 bursts with pauses; distinct non-trivial = distinct argument vectors", exhaustive_len, v, n_random);
+    let rule = format!("EVERY argument vector of length 0..={} over a {}-token vocabulary (-f/-t with every name and alias in attached, detached and '=' forms, repeated, missing value, invalid name; unknown short/long options; -h --help -V --version and clustered/valued forms; '--'; '-'; translatable / malformed / undetectable / unrepresentable / missing / directory / empty paths, a JSON file nested 200 000 deep, YAML behind a UTF-8 byte order mark, a file whose extension is a one-letter format alias, a procfs file (regular, reported size 0, not mappable, with content); the extension spelling 'yml' as an option value) plus {} random vectors of length 3-6 and every ordered pair of translatable inputs x every target; every vector of length 0..=1 and a sample of longer ones again with standard input an open directory (reads fail with EISDIR), and with the process started under 6 other program names (argv[0] not valid UTF-8, empty, a path, with a space); each run with a pipe and (rotating) a file, a pseudo-terminal or /dev/full as stdout, stdin content rotating over translatable / malformed / empty; plus 10 multi-document streams (complete, or with a malformed / unrepresentable later document; up to 30 KiB) x named or detected source x 4 targets, trickling in on stdin in 2-4 bursts with pauses; distinct non-trivial = distinct argument vectors", exhaustive_len, v, n_random);
     let mut extra = serde_json::Map::new();
     extra.insert("argv_exhaustive_up_to_length".into(), json!(exhaustive_len));
     ev::finish(
-        Finish { ctx, level: "exploration", rule, assumptions: vec!["the harness runs as root, so an unreadable-file case cannot be produced (permission bits are ignored); missing files and directories stand in for open failures".into(), "argv is tokenised by the lexopt crate, the manual's rules are applied by the harness".into()], extra, exhaustive: false, min_distinct: 1000, must_reach: vec![("class_usage".into(), 500), ("class_help".into(), 200), ("class_run".into(), 500), ("run_expected_exit_0".into(), 100), ("run_expected_exit_1".into(), 100), ("msgpack_to_terminal_cases".into(), 10), ("stdout_pty".into(), 200), ("class_run_dev_full".into(), 50), ("stdin_delivered_in_bursts".into(), 200), ("runs_under_another_program_name".into(), 1000)] },
+        Finish { ctx, level: "exploration", rule, assumptions: vec!["the harness runs as root, so an unreadable-file case cannot be produced (permission bits are ignored); missing files and directories stand in for open failures".into(), "argv is tokenised by the lexopt crate, the manual's rules are applied by the harness".into()], extra, exhaustive: false, min_distinct: 1000, must_reach: vec![("class_usage".into(), 500), ("class_help".into(), 200), ("class_run".into(), 500), ("run_expected_exit_0".into(), 100), ("run_expected_exit_1".into(), 100), ("msgpack_to_terminal_cases".into(), 10), ("stdout_pty".into(), 200), ("class_run_dev_full".into(), 50), ("stdin_delivered_in_bursts".into(), 200), ("runs_under_another_program_name".into(), 1000), ("stdin_is_a_directory".into(), 200)] },
         acc,
     )
 }
